@@ -65,6 +65,12 @@ def main_for(prop, argv=None, level="other"):
             ck.fail("buffers.OverflowableBuffer/bounded:fifo-histories", "history:" + repr(f)[:80], "bounded stand-in: real buffer deviates from a FIFO byte queue: %s" % f["problem"],
                     replay={"history": f, "label": "bounded"}, reproduced=True)
         ck.trusted.append("file model (content, pos) of contracts/buffers.py for BytesIO / TemporaryFile (assumed; exercised by the bounded stand-in)")
+    if prop == "C04":
+        # connections hand their tasks to the worker pool: tasks leave the pool's queue in submission order, each taken once
+        # (monitor invariant submitted == taken ++ queue on the real add_task / handler_thread)
+        resq = world.run_functions(ck, ["dispatcher"], ["task.ThreadedTaskDispatcher.add_task", "task.ThreadedTaskDispatcher.handler_thread"],
+                                   timeout=20, hooks_mod="contracts.dispatcher")
+        world.report(ck, resq)
     if prop == "C04" and ck.tier == "thorough":
         # the two facts the channel world only ASSUMES (backlog counter non-negative, a pending request is never completed) and the monitor
         # invariants, judged on the executions of the repository's tests
@@ -92,6 +98,9 @@ def main_for(prop, argv=None, level="other"):
         # listener safety: socket errors on accept / option calls / channel set-up never escape handle_accept nor stop the listener
         res2 = world.run_functions(ck, ["server"], ["server.BaseWSGIServer.handle_accept"], timeout=20, hooks_mod="contracts.server")
         world.report(ck, res2)
+        # event dispatch of the loop: a fault in one channel's handler reaches that channel's handle_error() and nothing else
+        res4 = world.run_functions(ck, ["wasyncore_loop"], ["wasyncore.read", "wasyncore.write", "wasyncore._exception"], timeout=20, hooks_mod="contracts.wasyncore_loop")
+        world.report(ck, res4)
     ck.trusted.extend(TRUST)
     ck.assumptions.append(NOT_DECIDED)
     ck.assumptions.append("every interleaving is covered through the reduction, not by exploring schedules; failed discipline obligations have no data counterexample (no-failing-input-found)")
